@@ -176,7 +176,7 @@ func ruleR02(c *Ctx) {
 	for _, tk := range c.m.Trees {
 		form := c.restoreForm(tk)
 		for _, mname := range []string{"Search", "Delete", "Insert"} {
-			u := c.m.effectiveMethod(tk, mname)
+			u := c.m.algorithmUnit(tk, mname)
 			if u == nil {
 				c.r.undecided("R02", tk.Name+"."+mname+" missing", "-", "method not found", "C01")
 				continue
